@@ -1,105 +1,40 @@
+import SigpyVerif.Gen.C12
 /-
-  C12 model: `sigpy.alg.ConjugateGradient` transcribed line by line (`__init__`, `_update`, `_done`,
-  and `Alg.update`'s counter increment) as an `init`/`update`/`done` machine.
+  C12 model: `sigpy.alg.ConjugateGradient` (`__init__`, `_update`, `_done`, `Alg.update`) as an
+  `init`/`update`/`done` machine.  The four definitions below ARE the definitions `Gen/C12.lean`
+  regenerates from sigpy/alg.py on every check (harness/translate/gen_c12.py: a statement-by-statement
+  translation of the method bodies; nothing here is transcribed by hand any more).
 
-  ONE definition, generic over a record `Ops V S` of the array/scalar operations the code uses
-  (`b - A(x)`, `util.axpy`, `util.xpay`, `xp.real(xp.vdot(·,·))`, scalar `/`, unary `-`, `<= 0`,
-  `** 0.5 <= tol`).  The driver executes it over `V = Array (Rat × Rat)`, `S = Rat`
+  ONE definition, generic over a record `Ops V S` (Model/C12Base.lean) of the array/scalar operations
+  the code uses (`b - A(x)`, `util.axpy`, `util.xpay`, `xp.real(xp.vdot(·,·))`, scalar `/`, unary `-`,
+  `<= 0`, `** 0.5 <= tol`).  The driver executes it over `V = Array (Rat × Rat)`, `S = Rat`
   (`ratOps` below, exact Gaussian rationals); `Props/C12.lean` reasons about the very same
   definition over a Mathlib inner-product space (`V = E`, `S = ℝ`).  Core Lean only.
-
-  Python source (sigpy/alg.py, class ConjugateGradient) next to each line.
 -/
 namespace SigpyVerif.C12
 
-/-- the operations `ConjugateGradient` uses -/
-structure Ops (V S : Type) where
-  /-- `b - y` -/
-  sub : V → V → V
-  /-- `util.axpy(y, a, x)`: `y += a * x` (the new `y`) -/
-  axpy : V → S → V → V
-  /-- `util.xpay(y, a, x)`: `y *= a; y += x` (the new `y`) -/
-  xpay : V → S → V → V
-  /-- `xp.real(xp.vdot(a, b))` -/
-  rdot : V → V → S
-  /-- scalar `/` -/
-  div : S → S → S
-  /-- scalar unary `-` -/
-  neg : S → S
-  /-- `s <= 0` -/
-  nonpos : S → Bool
-  /-- `r2 ** 0.5 <= tol` for the non-negative `r2` the solver produces -/
-  sqrtLe : S → S → Bool
-
-/-- the attributes of a `ConjugateGradient` object that change over time.  `resid2` is
-    `resid ** 2` (`resid = rzold.item() ** 0.5` is irrational in general); `alias` records that
-    `self.p` IS the array `z` (`max_iter <= 1`: no private copy is made). -/
-structure State (V S : Type) where
-  x : V
-  r : V
-  p : V
-  rzold : S
-  resid2 : S
-  npd : Bool
-  iter : Int
-  alias : Bool
-
 variable {V S : Type}
-
-/-- `z = self.r if self.P is None else self.P(self.r)` -/
-@[inline] def precond (P : Option (V → V)) (r : V) : V :=
-  match P with
-  | none => r
-  | some P => P r
 
 /-- `ConjugateGradient.__init__` followed by `Alg.__init__` -/
 def init (o : Ops V S) (A : V → V) (P : Option (V → V)) (b x : V) (maxIter : Int) : State V S :=
-  let r := o.sub b (A x)                       -- self.r = b - self.A(self.x)
-  let z := precond P r                         -- z = self.r | self.P(self.r)
-  let rz := o.rdot r z                         -- self.rzold = xp.real(xp.vdot(self.r, z))
-  { x := x, r := r
-    p := z                                     -- self.p = z.copy() if max_iter > 1 else z
-    alias := !decide (maxIter > 1)
-    npd := false                               -- self.not_positive_definite = False
-    rzold := rz
-    resid2 := rz                               -- self.resid = self.rzold.item() ** 0.5
-    iter := 0 }                                -- Alg.__init__: self.iter = 0
+  Gen.C12.init o A P b x maxIter
 
-/-- `ConjugateGradient._update`.  (When `alias` holds, `max_iter <= 1`, so the branch that mutates
-    `r`/`p` in place is unreachable — `alias_branch_unreachable` in Props — and aliasing is
-    unobservable; the model therefore keeps `p` and `r` as separate values.) -/
+/-- `ConjugateGradient._update`.  (Arrays are values here; the code updates `self.r` / `self.p` in place,
+    which is the same thing unless they share storage: `alias`.  `Gen.C12.updInplaceGuard` is the
+    condition under which they are updated in place and `alias_branch_unreachable` in Props shows it false
+    whenever `alias` holds.) -/
 def update_ (o : Ops V S) (A : V → V) (P : Option (V → V)) (maxIter : Int) (s : State V S) :
     State V S :=
-  let Ap := A s.p                              -- Ap = self.A(self.p)
-  let pAp := o.rdot s.p Ap                     -- pAp = xp.real(xp.vdot(self.p, Ap)).item()
-  if o.nonpos pAp then                         -- if pAp <= 0:
-    { s with npd := true }                     --   self.not_positive_definite = True; return
-  else
-    let alpha := o.div s.rzold pAp             -- self.alpha = self.rzold / pAp
-    let x := o.axpy s.x alpha s.p              -- util.axpy(self.x, self.alpha, self.p)
-    if s.iter < maxIter - 1 then               -- if self.iter < self.max_iter - 1:
-      let r := o.axpy s.r (o.neg alpha) Ap     --   util.axpy(self.r, -self.alpha, Ap)
-      let z := precond P r                     --   z = self.P(self.r) | self.r
-      let rznew := o.rdot r z                  --   rznew = xp.real(xp.vdot(self.r, z))
-      let beta := o.div rznew s.rzold          --   beta = rznew / self.rzold
-      let p := o.xpay s.p beta z               --   util.xpay(self.p, beta, z)
-      { s with x := x, r := r, p := p
-               rzold := rznew                  --   self.rzold = rznew
-               resid2 := rznew }               -- self.resid = self.rzold.item() ** 0.5
-    else
-      { s with x := x, resid2 := s.rzold }     -- self.resid = self.rzold.item() ** 0.5
+  Gen.C12.update_ o A P maxIter s
 
 /-- `Alg.update`: `self._update(); self.iter += 1` -/
 def update (o : Ops V S) (A : V → V) (P : Option (V → V)) (maxIter : Int) (s : State V S) :
     State V S :=
-  let s' := update_ o A P maxIter s
-  { s' with iter := s'.iter + 1 }
+  Gen.C12.update o A P maxIter s
 
 /-- `ConjugateGradient._done` -/
 def done (o : Ops V S) (maxIter : Int) (tol : S) (s : State V S) : Bool :=
-  decide (s.iter ≥ maxIter)                    -- self.iter >= self.max_iter
-    || s.npd                                   -- or self.not_positive_definite
-    || o.sqrtLe s.resid2 tol                   -- or self.resid <= self.tol
+  Gen.C12.done o maxIter tol s
 
 /-- state after `k` calls of `update()` -/
 def run (o : Ops V S) (A : V → V) (P : Option (V → V)) (b x : V) (maxIter : Int) : Nat → State V S
